@@ -49,44 +49,53 @@ Dropped(e, f) == \/ ~(SeqSet(f.pre.lic) \subseteq SeqSet(f.post.lic))
                               ~\E n \in O : n.holder = h /\ n.y1 # 0 /\ n.y1 <= y /\ y <= n.y2)
                  \/ (e.req.rendersCon /\ ~(SeqSet(f.pre.con) \subseteq SeqSet(f.post.con)))
 
-FileVerdict(e, f) ==
-   IF Complete(e, f) \/ Untouched(f) THEN ""
-   ELSE IF e.exit # 0 THEN "C11.failed-annotation-left-a-trace"
-   ELSE IF Dropped(e, f) THEN "C09.previously-declared-information-dropped"
-   ELSE "C07.read-back-differs-from-request"
-
 Prev(i) == IF i > 1 /\ Tr[i - 1].tid = Tr[i].tid THEN Tr[i - 1] ELSE [exit |-> -1]
 FilesOf(e) == {e.files[i] : i \in 1..Len(e.files)}
-FirstBad(e) == LET bad == {i \in 1..Len(e.files) : FileVerdict(e, e.files[i]) # ""}
-               IN  IF bad = {} THEN "" ELSE FileVerdict(e, e.files[CHOOSE i \in bad : \A j \in bad : i <= j])
+Sane(e) == e.crash = "" /\ e.exit \in {0, 1, 2}
+Touched(e) == {f \in FilesOf(e) : ~Complete(e, f) /\ ~Untouched(f)}      \* changed, but not into what was asked for
 
-Verdict(i) ==
+(* Every property is judged on its own (one clause per family, all of them printed): a defect usually breaks several   *)
+(* at once, and the check of one property only listens to the clauses that carry its name.                             *)
+C11Clause(i) ==
    LET e == Tr[i] IN
-   IF e.crash # "" THEN "crash"
+   IF e.crash # "" THEN ""
    ELSE IF e.exit \notin {0, 1, 2} THEN "C11.undocumented-exit-status"
    ELSE IF e.expect = "usage" /\ e.exit # 2 THEN "C11.usage-error-not-detected-before-processing"
    ELSE IF e.expect = "fail" /\ (e.exit # 1 \/ \E f \in FilesOf(e) : ~Untouched(f))
         THEN "C11.header-that-cannot-be-valid-was-not-refused"
    ELSE IF e.exit = 2
         THEN IF \A f \in FilesOf(e) : Untouched(f) /\ e.treeUnchanged THEN "" ELSE "C11.usage-error-after-touching-files"
-   ELSE IF FirstBad(e) # "" THEN FirstBad(e)
-   ELSE IF e.exit = 0 /\ \E f \in FilesOf(e) : ~Complete(e, f) /\ ~LegitSkip(e, f)
-        THEN "C07.success-reported-but-requested-information-not-declared"
+   ELSE IF e.exit # 0 /\ Touched(e) # {} THEN "C11.failed-annotation-left-a-trace"
    ELSE IF e.exit = 1 /\ \A f \in FilesOf(e) : Complete(e, f) \/ LegitSkip(e, f)
         THEN "C11.exit-status-1-but-every-file-was-handled"
    ELSE IF \E f \in FilesOf(e) : f.mustSucceed /\ ~Complete(e, f) /\ ~LegitSkip(e, f)
         THEN "C11.file-that-can-be-annotated-was-not-processed"
-   ELSE IF e.sameAsPrev /\ ~e.req.noReplace /\ Prev(i).exit = 0 /\ e.exit = 0 /\ \E f \in FilesOf(e) : ~Untouched(f)
+   ELSE ""
+C09Clause(i) ==
+   LET e == Tr[i] IN
+   IF Sane(e) /\ e.exit = 0 /\ \E f \in Touched(e) : Dropped(e, f)
+   THEN "C09.previously-declared-information-dropped" ELSE ""
+C07Clause(i) ==
+   LET e == Tr[i] IN
+   IF ~Sane(e) \/ e.exit # 0 THEN ""
+   ELSE IF Touched(e) # {} THEN "C07.read-back-differs-from-request"
+   ELSE IF \E f \in FilesOf(e) : ~Complete(e, f) /\ ~LegitSkip(e, f)
+        THEN "C07.success-reported-but-requested-information-not-declared"
+   ELSE ""
+C10Clause(i) ==
+   LET e == Tr[i] IN
+   IF ~Sane(e) \/ e.exit # 0 THEN ""
+   ELSE IF e.sameAsPrev /\ ~e.req.noReplace /\ Prev(i).exit = 0 /\ \E f \in FilesOf(e) : ~Untouched(f)
         THEN "C10.identical-rerun-changed-the-file"
-   ELSE IF e.sameAsPrev /\ e.exit = 0 /\ \E f \in FilesOf(e) : f.post.blocks > 1 /\ f.pre.blocks <= 1 /\ ~e.req.noReplace
+   ELSE IF e.sameAsPrev /\ \E f \in FilesOf(e) : f.post.blocks > 1 /\ f.pre.blocks <= 1 /\ ~e.req.noReplace
         THEN "C10.second-header-block-stacked"
    ELSE ""
+Clauses(i) == {c \in {IF Tr[i].crash # "" THEN "crash" ELSE "", C11Clause(i), C09Clause(i), C07Clause(i), C10Clause(i)} : c # ""}
 
 KnownFinding(e, c) == ""
 TInit == l = 1
 TNext == /\ l <= Len(Tr)
          /\ LET e == Tr[l]
-                c == Verdict(l)
-            IN  IF c = "" THEN TRUE ELSE PrintT(<<"REJECT", e.tid, e.k, c, KnownFinding(e, c), e.label>>)
+            IN  \A c \in Clauses(l) : PrintT(<<"REJECT", e.tid, e.k, c, KnownFinding(e, c), e.label>>)
          /\ l' = l + 1
 =================================================================================
